@@ -673,7 +673,7 @@ func main() {
 		"files": g.w.files, "lines": g.w.n, "by_op": g.w.counts,
 		"leading_zero_parents": g.lzParents, "leading_zero_seeds_tried": g.lzTried,
 		"vector_steps_after_deviation": g.tainted,
-		"cases": map[string]int{"seed": len(seeds), "path": len(paths), "corrupt": len(corrupts), "craft": len(crafts)},
+		"cases":                        map[string]int{"seed": len(seeds), "path": len(paths), "corrupt": len(corrupts), "craft": len(crafts)},
 	}
 	b, _ := json.Marshal(sum)
 	fmt.Println(string(b))
